@@ -227,6 +227,29 @@ def run_shard(ctx):
         ts = typify(sheets, rng)
         compare_all(ctx, form, ts, sig, "typed", ["xlsx", "xls"], rng)
         reader_postconditions(ctx, ts, form, "typed")
+        # (2a) one column holding boolean-typed and number-typed cells of equal value (TRUE beside 1, FALSE beside 0): each cell keeps its own text
+        if i % 4 == 1:
+            mx = {name: (list(h), [list(r) for r in rows]) for name, (h, rows) in sheets.items()}
+            pool = [True, 1, False, 0, 1.0, 0.0, True, False]
+            rng.shuffle(pool)
+            h, rows = mx["survey"]
+            h.append("bind::ex:flag")
+            for ri, r in enumerate(rows):
+                r.append(pool[ri % len(pool)] if r[0] and not str(r[0]).startswith("end") else None)
+            if "choices" in mx:
+                h, rows = mx["choices"]
+                h.append("flagcol")
+                for ri, r in enumerate(rows):
+                    r.append(pool[(ri + 3) % len(pool)])
+            mx.setdefault("settings", (["form_id"], [[f"mixed{i}"]]))
+            hs, rs = mx["settings"]
+            if "namespaces" not in hs:
+                hs.append("namespaces")
+                rs[0].append('ex="http://example.org/ex"')
+            else:
+                rs[0][hs.index("namespaces")] = ((rs[0][hs.index("namespaces")] or "") + ' ex="http://example.org/ex"').strip()
+            ctx.ctr("mixed_bool_number_columns")
+            compare_all(ctx, form, mx, sig, "typed-mixed-column", ["xlsx", "xls"], rng)
         # (2b) multi-line cells: spreadsheets and quoted CSV fields carry embedded line breaks (markdown cannot)
         if i % 3 == 0:
             ml = {}
